@@ -148,7 +148,8 @@ def trPhase (s : CS) (w : CWl) : Bool :=
      | none => false)
   | .progressing, .finalising =>
     (match s.ro.sub with
-     | some sub => netCore s sub w false && finBr s sub w && sub.canaryRev == w.updateRevision
+     | some sub => netCore s sub w false && finBr s sub w && sub.canaryRev == w.updateRevision &&
+         decide (sub.curIdx ≤ s.ro.steps.length)
      | none => false)
   | .progressing, .completed => netClean s.net && released w
   | _, _ => false
@@ -184,7 +185,7 @@ def trInvWhy (s : CS) : String :=
        | some sub =>
          if !(s.net.stableSel.isNone || stableAlive sub w) then "fin:alive" else
          if !pinOK s sub w then "fin:pin" else if !svcOK s w then "fin:svc" else if !ingOK s then "fin:ing" else
-         if !hashOK sub w then "fin:hash" else if !baseOK s then "fin:base" else if !finBr s sub w then "fin:finBr" else if !(sub.canaryRev == w.updateRevision) then "fin:rev" else "ok"
+         if !hashOK sub w then "fin:hash" else if !baseOK s then "fin:base" else if !finBr s sub w then "fin:finBr" else if !(sub.canaryRev == w.updateRevision) then "fin:rev" else if !decide (sub.curIdx ≤ s.ro.steps.length) then "fin:idx" else "ok"
        | none => "fin:nosub")
     | .progressing, .completed => if !netClean s.net then "completed:net" else if released w then "ok" else "completed:released"
     | _, _ => "phase"
